@@ -73,11 +73,14 @@ def h_nested(f, ns, start='zero', twice=False):
     def body(env):
         A = env.A
         s = ct.make_spec('offline', 'out = ' + text(f), vs)
-        if twice:
+        if twice is True:
             first = {v: ct.signal(env, 'first_' + v, 2, 'zero') for v in vs}     # an earlier evaluate() of the same object on other data
             s.evaluate(*[[v, [list(p) for p in first[v]]] for v in vs])
         sigs = {v: ct.signal(env, v, n, start) for v, n in zip(vs, ns)}
-        out = s.evaluate(*[[v, [list(p) for p in sigs[v]]] for v in vs])
+        args = [[v, [list(p) for p in sigs[v]]] for v in vs]
+        if twice == 'same':
+            s.evaluate(*args)          # the caller evaluates the very same data objects a second time
+        out = s.evaluate(*args)
         out = [list(p) for p in out]
         env.observe('out', out)
         res = ct.wellformed(A, out)
@@ -149,6 +152,18 @@ def obligations(tier, rng):
               ('geq', X, C05), ('once', ('once', X)), ('and', ('once_t', X, 0, 1), ('always_t', Y, 0, 1))]:
         two = len(refsem.variables(f)) > 1
         out.append(ob('C04', 'nested', 'reuse/%s' % text(f), f=f, ns=[2, 2] if two else [3], twice=True, max_paths=60000, wall=900))
+    # a variable read twice by pointwise operators next to a variable with other break-points; and the same data objects evaluated twice
+    C2 = ('const', 2.0)
+    rep = [('and', ('leq', X, Y), ('leq', Y, C2)), ('or', ('sub', X, Y), Y), ('and', ('and', X, Y), Y), ('implies', ('geq', X, Y), ('neg', Y)),
+           ('add', ('mul', X, Y), Y), ('xor', ('iff', X, Y), X), ('geq', ('sub', X, Y), ('sub', Y, X)), ('always_t', ('and', ('leq', X, Y), ('leq', Y, C2)), 0, 1)]
+    for f in rep:
+        if f[0] == 'always_t':
+            continue        # not in the closed-form fragment (two-variable operand): covered by C16/C19
+        for ns in ([[2, 3]] if quick else [[2, 3], [3, 2], [3, 3]]):
+            out.append(ob('C04', 'nested', 'repeated-var/%s/n=%s' % (text(f), ns), f=f, ns=ns, start='free', max_paths=60000, wall=900))
+    for f in [('and', X, Y), ('leq', X, Y), ('sub', X, Y), ('or', ('not', X), Y), ('implies', X, Y)] + ([] if quick else [('iff', X, Y), ('mul', X, Y), ('gt', X, Y)]):
+        out.append(ob('C04', 'nested', 'same-data-twice/%s/n=[2, 3]' % text(f), f=f, ns=[2, 3], start='free', twice='same', max_paths=60000, wall=900))
+        out.append(ob('C04', 'nested', 'same-data-twice/%s/n=[3, 2]' % text(f), f=f, ns=[3, 2], start='free', twice='same', max_paths=60000, wall=900))
     for k in BINT:
         for a, b in [(1, 2)]:
             f = (k, X, Y, a, b)
